@@ -52,7 +52,8 @@ def _junk(gate: str, r, perf_on: bool) -> Dict[str, Any]:
         if r.chance(0.6):
             out["t2"] = {k: v for k, v in (("cache", c([{"max_entries": 1}, {"max_bytes": 256}])), ("embed_store_dtype", c(["fp32", "fp16"])),
                                             ("precompute_norms", c([True, False])),
-                                            ("reader", {"partitions": {"enabled": True, "layout": "owner_quarter", "path": "./.data/t2parts"}})) if r.chance(0.5)}
+                                            ("reader", {"partitions": c([{"enabled": True, "layout": "none", "path": "./t2store"}, {"enabled": True},
+                                                                          {"enabled": True, "layout": "owner_quarter", "path": "./.data/t2parts"}])})) if r.chance(0.5)}
         if r.chance(0.5):
             out["snapshots"] = {k: v for k, v in (("compression", c(["none", "zstd"])), ("level", c([1, 19])), ("delta_mode", c([True, False])),
                                                   ("every_n_turns", c([1, 2]))) if r.chance(0.6)}
@@ -180,7 +181,7 @@ def generate(seed: int, tier: str) -> Dict[str, Any]:
     for op in ops:
         if op["op"] == "turn":
             op["reflect"] = True
-    return {"world": world, "cfg": base, "gates": ok, "ops": ops}
+    return {"world": world, "cfg": base, "gates": ok, "ops": ops, "entry": r.choice(["run_turn", "run_turn", "batch"])}
 
 
 def _arm(program: Dict[str, Any], plus: bool) -> Dict[str, Any]:
@@ -192,7 +193,27 @@ def _arm(program: Dict[str, Any], plus: bool) -> Dict[str, Any]:
     out: Dict[str, Any] = {"steps": [], "exc": None}
     with Scratch() as root:
         with E.EngineEnv(root, clock) as ee:
-            run = E.EngineRun(program["world"], raw, ee)
+            turn_fn = None
+            if program.get("entry") == "batch":
+                # second entry point: the agent batch driver (with the agent gate closed it must be a plain loop)
+                import clematis.engine.orchestrator.parallel as opar
+
+                def turn_fn(ctx, state, text):
+                    state.setdefault("graphs_by_agent", {a: list(g) for a, g in program["world"]["agents"].items()})
+                    res = opar._run_agents_parallel_batch(ctx, state, [(ctx.agent_id, text)])
+                    return res[0] if res else None
+            # give the gated embedding-store reader something to find: shards at ./t2store and at the default embed_root
+            try:
+                import numpy as _np
+                from clematis.engine.util.embed_store import write_shard
+                eps = program["world"].get("episodes") or []
+                ids = [e["id"] for e in eps] + ["store_only_1", "store_only_2"]
+                vecs = _np.stack([E._EMB.encode([e.get("text", "")])[0] for e in eps] + [E._EMB.encode(["apple river"])[0], E._EMB.encode(["stone"])[0]])
+                for d in ("t2store", os.path.join(".data", "t2")):
+                    write_shard(os.path.join(root, d), ids, vecs, dtype="fp32", precompute_norms=True)
+            except Exception:
+                pass
+            run = E.EngineRun(program["world"], raw, ee, turn_fn=turn_fn)
             out["norm_cfg"] = E.jdigest(E.validate_config(copy.deepcopy(raw)))
             for op in program["ops"]:
                 if op.get("reflect"):
@@ -213,7 +234,7 @@ def _arm(program: Dict[str, Any], plus: bool) -> Dict[str, Any]:
             for cur, _d, files in os.walk(root):
                 for n in files:
                     rel = os.path.relpath(os.path.join(cur, n), root)
-                    if not (rel.startswith("logs/") or rel.startswith("snap/")):
+                    if not (rel.startswith("logs/") or rel.startswith("snap/") or rel.startswith("t2store/") or rel.startswith(".data/t2/")):
                         extra.append(rel)
             out["extra_files"] = sorted(extra)
     return out
